@@ -61,11 +61,8 @@ def specRun (f : List String) : Option String :=
     let rv ← b4? rv
     match a with
     | .hidden t v =>
-      if v.length = 0 ∨ v.length % 16 ≠ 0 then some "!" else
-      let plain := Spec.Hide.decrypted Spec.Md5.md5 t s rv v
-      let total := (Spec.u16At plain 0).toNat
-      if total < 6 ∨ total > 1023 ∨ total - 6 > v.length - 2 then some "!" else
-      some (match Spec.parsePayload t ((plain.drop 2).take (total - 6)) with
+      -- the named reference (`C12.reveal_eq_reference`: the model's `reveal` equals it)
+      some (match Spec.Hide.reveal Spec.Md5.md5 t s rv v with
         | some x => renderAvp x
         | none => "!")
     | _ => some "n/a"
